@@ -105,13 +105,14 @@ type VC struct {
 	calledContracts map[*ssa.Function]bool
 	ptrFieldSeq int
 	ptrFieldIDs map[string]int
+	implIfaces  map[string]*types.Interface
 }
 
 func newVC(p *Prog, rootKey string, loopMods map[string]map[string]bool) *VC {
 	vc := &VC{p: p, srt: newSorter(), declared: map[string]bool{}, svars: map[string]*SVar{},
 		oblNames: map[string]int{}, counters: map[string]int{}, strIDs: map[string]int{}, used: map[string]bool{},
 		loopMods: loopMods, modsOut: map[string]map[string]bool{}, rootKey: rootKey, typeTags: map[string]int{},
-		globalsTouched: map[string]bool{}, lateVars: map[string]bool{}, usedLib: map[string]bool{}, calledContracts: map[*ssa.Function]bool{}, ptrFieldIDs: map[string]int{}}
+		globalsTouched: map[string]bool{}, lateVars: map[string]bool{}, usedLib: map[string]bool{}, calledContracts: map[*ssa.Function]bool{}, ptrFieldIDs: map[string]int{}, implIfaces: map[string]*types.Interface{}}
 	if vc.loopMods == nil {
 		vc.loopMods = map[string]map[string]bool{}
 	}
@@ -333,6 +334,24 @@ func (vc *VC) Query(selected map[*Obligation]bool, entry *Node, wantModel bool, 
 	}
 	for _, a := range vc.axioms {
 		sb.WriteString("(assert " + a + ")\n")
+	}
+	// which known dynamic types implement the interfaces used in type assertions (decided by go/types)
+	var inames []string
+	for k := range vc.implIfaces {
+		inames = append(inames, k)
+	}
+	sort.Strings(inames)
+	for _, k := range inames {
+		for i, tt := range vc.tagTypes {
+			if tt == types.Typ[types.Invalid] {
+				continue
+			}
+			if types.Implements(tt, vc.implIfaces[k]) {
+				sb.WriteString(fmt.Sprintf("(assert (%s %d))\n", smtName(k), i+1))
+			} else {
+				sb.WriteString(fmt.Sprintf("(assert (not (%s %d)))\n", smtName(k), i+1))
+			}
+		}
 	}
 	for _, n := range vc.nodes {
 		if n.dead {
